@@ -22,7 +22,7 @@ ASSUMPTIONS = [
     "only the workflow's main task issues wf operations in the scripts (sub-tasks are plain leaves)",
     "a re-execution is a new run of the invocation fetched again from the state backend, as every runner does",
 ]
-REQUIRED_HOOKS = ["workflows_run", "attempt_pairs_compared", "subtask_launch_counts_checked", "cross_workflow_checks"]
+REQUIRED_HOOKS = ["workflows_run", "attempt_pairs_compared", "subtask_launch_counts_checked", "cross_workflow_checks", "sub_workflows_observed"]
 
 
 def WORKERS(tier):
@@ -46,11 +46,15 @@ def gen_cases(tier, seed):
     return cases
 
 
-def gen_script(rng):
+def gen_script(rng, child_ok=True):
     ops = []
     for _ in range(rng.randint(1, 8)):
         r = rng.random()
-        if r < 0.3:
+        if child_ok and r < 0.07 and ops:
+            # a sub-workflow (task with force_new_workflow) started from this one; it asks for the same kinds of things as its parent did
+            ops.append(["child", gen_script(rng, child_ok=False) if rng.random() < 0.5 else [o for o in ops if not (isinstance(o, list) and o[0] == "child")], rng.choice([0, 0, 1])])
+            child_ok = False
+        elif r < 0.3:
             ops.append("random")
         elif r < 0.5:
             ops.append("time")
@@ -62,7 +66,7 @@ def gen_script(rng):
 
 
 def script_shape(s):
-    return "".join(o[0] if isinstance(o, str) else ("s" if o[0] == "sub" else "S") for o in s)
+    return "".join(o[0] if isinstance(o, str) else {"sub": "s", "sub2": "S"}.get(o[0], "C") for o in s)
 
 
 def judge_records(records, scripts, app, V, hooks, wit_base):
@@ -104,6 +108,12 @@ def judge_records(records, scripts, app, V, hooks, wit_base):
                 if calls[i_][1] & calls[j_][1]:
                     V.append({"sig": "different-calls-share-one-sub-invocation", "what": f"workflow {wid[:8]}: the calls {calls[i_][0]} and {calls[j_][0]} were handed the same invocation", "witness": wit_base})
     # 3. values of different workflows never mix
+    for (wid, inv), attempts in by_wf.items():
+        try:
+            if app.state_backend.get_invocation(inv).workflow.parent_workflow_id:
+                hooks["sub_workflows_observed"] += 1
+        except Exception:
+            pass
     firsts = {}
     for (wid, inv), attempts in by_wf.items():
         firsts[wid] = attempts[sorted(attempts)[0]]
@@ -158,6 +168,7 @@ def run_sim(case, V, hooks, distinct):
             def build(s):
                 app = s.make_app()
                 t = app.task(wf.scripted, max_retries=3)
+                app.task(wf.scripted_child, max_retries=3, force_new_workflow=True)
                 app.task(wf.leaf)
                 app.task(wf.leaf2)
                 for i in range(nwf):
@@ -205,6 +216,7 @@ def run_fork(case, V, hooks, distinct):
             app_id = f"c18f{os.getpid()}_{n}"
             app = make_app("sqlite", db, app_id=app_id, cached_status_time=0.0)
             t = app.task(wf.scripted, max_retries=3)
+            app.task(wf.scripted_child, max_retries=3, force_new_workflow=True)
             app.task(wf.leaf)
             app.task(wf.leaf2)
             inv = t(script, 1, "fork")
@@ -218,7 +230,7 @@ def run_fork(case, V, hooks, distinct):
                     wf.RECORD.clear(); wf.ATTEMPT.clear()
                     ctx = runner_ctx("W", "forked-worker")
                     capp = make_app("sqlite", db, app_id=app_id, cached_status_time=0.0)
-                    capp.task(wf.scripted, max_retries=3); capp.task(wf.leaf); capp.task(wf.leaf2)
+                    capp.task(wf.scripted, max_retries=3); capp.task(wf.scripted_child, max_retries=3, force_new_workflow=True); capp.task(wf.leaf); capp.task(wf.leaf2)
                     set_thread_ctx(capp, ctx)
                     for w in list(capp.orchestrator.get_invocations_to_run(1, ctx)):
                         try:
